@@ -51,6 +51,9 @@ pub(crate) enum CheckedActionFeeError {
         amount: u128,
     },
 
+    #[error("fee for `{action_name}` action overflows u128")]
+    FeeOverflow { action_name: &'static str },
+
     #[error("internal error: {context}")]
     InternalError {
         context: String,
